@@ -102,6 +102,10 @@ def W9_pairing(rep, flow: Flow):
             conv_ok = conv is not None and any(vkey(conv) == vkey(Interp_sym(r, x)) for x in rec_lists)
             if perm or srcs:
                 rep.finding("W9", f"{fq}:order", f"{f.module.rel} {f.qualname}: the returned list of {field} is reordered or filtered ({perm or srcs}); it no longer lines up index by index with the other list")
+            elif not (same or conv_ok) and o.meta.get("elementwise_of") in rec_lists:
+                rep.ok("W9", 1, nontrivial=(fq, "elementwise"), sample=f"{f.qualname}: one element per element of the record's list, in order")
+            elif not (same or conv_ok) and o.meta.get("elementwise_of") is None and not (o.items is not None and not o.items):
+                raise AnalysisError(f"{f.module.rel} {f.qualname}: the returned list of {field} (allocated at {o.site}) is built in a way whose order relation to the record's list is not modelled: W9 cannot decide index alignment")
             elif not (same or conv_ok):
                 rep.finding("W9", f"{fq}:rebuilt", f"{f.module.rel} {f.qualname}: the returned list of {field} is not the record's list nor an order-preserving copy of it (allocated at {o.site})")
             else:
@@ -823,6 +827,12 @@ def _is_odd_test(test, mask, outcome_attr):
     p = parity_expr(test)
     if p is not None:
         return (True, p)
+    # the popcount itself as a truth value, or compared with a constant: that is "some overlap" / "exactly k ones", not the parity
+    bare = popcount_of_and(test)
+    if bare is not None:
+        return (True, "notparity:truth value of the popcount (true for every non-empty overlap, not only odd ones)")
+    if isinstance(test, ast.Compare) and len(test.ops) == 1 and isinstance(test.comparators[0], ast.Constant) and popcount_of_and(test.left) is not None:
+        return (True, f"notparity:popcount compared with {test.comparators[0].value} (wrong for overlaps of 3, 5, ... ones)")
     if isinstance(test, ast.Compare) and len(test.ops) == 1 and isinstance(test.comparators[0], ast.Constant):
         p = parity_expr(test.left)
         v = test.comparators[0].value
@@ -868,7 +878,10 @@ def S2_estimator(rep, flow: Flow):
             if r is None:
                 raise AnalysisError(f"{pyfacts.where(f, test)}: parity test outside the recognised idioms [{ast.unparse(test)}]")
             odd_when_true, how = r
-            if how != "and":
+            if how.startswith("notparity:"):
+                rep.finding("S2", f"{A_ESTIMATOR}:parity-form", f"{pyfacts.where(f, test)}: `{ast.unparse(test)}` is not the parity of popcount(mask & outcome): {how[10:]}")
+                parity = "bad"
+            elif how != "and":
                 rep.finding("S2", f"{A_ESTIMATOR}:parity-operands:{truth}", f"{pyfacts.where(f, test)}: the parity is taken of `{ast.unparse(test)}` - it must be popcount(mask & outcome) ({how})")
                 parity = "bad"
             else:
@@ -975,6 +988,12 @@ def W1_W2_builders(rep, flow: Flow, want=("W1", "W2"), builders=None):
                         continue
                 md = c.meta.get("metadata")
                 mdo = r.heap.get(md.oid) if isinstance(md, Ref) else None
+                if mdo is not None and o is not None and o.kind == "list" and mdo.loop_depth < c.loop_depth:
+                    # the dictionary was created once, outside the loop that builds the circuits: all of them share it and
+                    # carry the record written last
+                    rid0 = "W2" if "W2" in rep.rules else "W1"
+                    rep.finding(rid0, f"{fq}:shared-metadata", f"{f.module.rel} {f.qualname} return path #{pi}: one metadata dictionary (allocated at {mdo.site}) is assigned to every circuit of the list: the readout records overwrite each other and every circuit ends up with the last one")
+                    continue
                 recs = [val for (k, val, w) in (mdo.meta.get("stores", []) if mdo else []) if isinstance(val, Ref) and r.heap[val.oid].kind == "record"]
                 if not recs:
                     for rid in ("W2", "W1"):
@@ -1032,6 +1051,35 @@ def W1_W2_builders(rep, flow: Flow, want=("W1", "W2"), builders=None):
                         rep.ok("W1", 1, nontrivial=(fq, pi), sample=f"{f.qualname} path #{pi}: .{qfield[2]} = {'None' if given else lp}, .{widths[0]} = preparation_circuit.num_qubits")
 
 
+def A8_snapshot(rep, flow: Flow, builders=None):
+    """the readout record travels with the returned circuit: the measured-qubit list it holds must be the library's own
+    snapshot (tuple(...) / list(...) of the argument), not the caller's list object - otherwise a caller who reuses or edits
+    the list afterwards changes circuits that were returned earlier"""
+    rep.rule("A8", "the readout record stored with a returned measurement circuit holds a snapshot (tuple / list copy) of the caller's measured-qubit list, never the caller's own list object", floor=len(builders or BUILDERS))
+    for fq in (builders or BUILDERS):
+        f = flow.prog.func(fq)
+        n = 0
+        for pi, r in enumerate(flow.paths(fq)):
+            if r.kind != "return" or r.decisions.get(("isnone", ("param", "measured_qubits"))) is True:
+                continue
+            for o in r.heap.values():
+                if not (o.kind == "record" and o.cls is not None and o.cls.name == "ReadoutInfo"):
+                    continue
+                for k, val in o.fields.items():
+                    ho = r.heap.get(val.oid) if isinstance(val, Ref) else None
+                    if ho is not None and ho.origin[0] == "param" and ho.origin[1] == "measured_qubits":
+                        rep.finding("A8", f"{fq}:{k}", f"{f.module.rel} {f.qualname} return path #{pi}: the readout record's `.{k}` is the caller's own `measured_qubits` object: editing or reusing that list later changes the circuit that was returned")
+                        n += 1
+                    elif isinstance(val, Sym) and val.tag == "param" and val.args and val.args[0] == "measured_qubits":
+                        rep.finding("A8", f"{fq}:{k}", f"{f.module.rel} {f.qualname} return path #{pi}: the readout record's `.{k}` is the caller's own `measured_qubits` object: editing or reusing that list later changes the circuit that was returned")
+                        n += 1
+                    elif ho is not None and ho.kind in ("tuple", "list") and (ho.meta.get("identity_conv_of") is not None or ho.origin[0] == "fresh"):
+                        rep.ok("A8", 1, nontrivial=(fq, pi, k), sample=f"{f.qualname} path #{pi}: .{k} is a {ho.kind} allocated in the call")
+                        n += 1
+        if n == 0:
+            raise AnalysisError(f"{fq}: no readout record with a qubit list found on a path with measured_qubits given (anchor vanished)")
+
+
 def W11_fitter_uses_list(rep, flow: Flow):
     rep.rule("W11", "the fitter marginalises the counts onto the qubit list stored by the builder: the counts parser is constructed with the record's qubit field (not None, not another list)", floor=1)
     parser_cls = A_COUNTS_PARSER.split(".")[1]
@@ -1076,7 +1124,11 @@ def W11_fitter_uses_list(rep, flow: Flow):
             if isinstance(cnt, ast.Name):
                 csrcs = [a.value for a in _assigned(f.node, cnt.id)]
             from_param = isinstance(cnt, ast.Name) and (cnt.id in f.params or not csrcs)
-            if not from_param and not any(isinstance(x, ast.Call) and isinstance(x.func, ast.Attribute) and x.func.attr == "get_counts" for sv in csrcs for x in ast.walk(sv)):
+            # a value produced by a helper call (self._circuit_counts(), a function of the module) is judged where it is produced
+            from_helper = any(isinstance(sv, ast.Call) and not (isinstance(sv.func, ast.Name) and sv.func.id in ("dict", "list", "tuple")) and "get_counts" not in ast.unparse(sv)
+                              and not any(isinstance(x, ast.Attribute) and x.attr in ("qubits", "circuit") for x in ast.walk(sv)) for sv in csrcs) and \
+                not any(isinstance(sv, (ast.Name, ast.Attribute)) for sv in csrcs)
+            if not from_param and not from_helper and not any(isinstance(x, ast.Call) and isinstance(x.func, ast.Attribute) and x.func.attr == "get_counts" for sv in csrcs for x in ast.walk(sv)):
                 rep.finding("W11", f"{A_FITTER}:parser-counts", f"{pyfacts.where(f, c)}: the counts parser is given `{ast.unparse(cnt)}`, which does not come from get_counts(): the fitter does not evaluate the measured counts [{pyfacts.norm_stmt(c)}]")
                 continue
         if okk:
@@ -1099,6 +1151,18 @@ def H1_histogram_accumulates(rep, flow: Flow):
     parser = prog.func(A_COUNTS_PARSER)
     merges = any(isinstance(n, ast.Call) and ast.unparse(n.func).endswith(("marginal_counts", "Counter", "defaultdict")) for n in ast.walk(parser.node))
     appends = any(isinstance(n, ast.Call) and isinstance(n.func, ast.Attribute) and n.func.attr == "append" for n in ast.walk(parser.node))
+    # a parser that collects the marginal keys in a dictionary of its own must ADD the counts of equal keys: a plain store
+    # keyed by the (marginalised) key inside the key loop keeps the last one only
+    for loop in [x for x in ast.walk(parser.node) if isinstance(x, ast.For)]:
+        tnames = {x.id for x in ast.walk(loop.target) if isinstance(x, ast.Name)}
+        for st in ast.walk(loop):
+            if isinstance(st, ast.Assign) and len(st.targets) == 1 and isinstance(st.targets[0], ast.Subscript) and isinstance(st.targets[0].value, ast.Name) \
+                    and isinstance(st.targets[0].slice, ast.Name) and st.targets[0].slice.id in tnames | {"key"}:
+                dname = st.targets[0].value.id
+                reads_self = any(isinstance(x, ast.Name) and x.id == dname for x in ast.walk(st.value))
+                rebuilt_key = any(isinstance(a, ast.Assign) and isinstance(a.targets[0], ast.Name) and a.targets[0].id == st.targets[0].slice.id for a in ast.walk(loop))
+                if rebuilt_key and not reads_self:
+                    rep.finding("H1", f"{parser.fq}:{pyfacts.norm_stmt(st)}", f"{pyfacts.where(parser, st)}: `{pyfacts.norm_stmt(st)}` stores the count under the marginalised key without adding to what is already there: count keys that agree on the measured qubits overwrite each other")
     if merges or not appends:
         rep.note("H1: the counts parser merges equal outcomes itself; histogram stores cannot collide")
         return
